@@ -216,6 +216,11 @@ impl Constraint {
                 TrivialResolution::Violated
             }
             Constraint::Equal(_, _) => TrivialResolution::Unknown,
+            // A dimension type that mentions type parameters is only a dimension type if
+            // those parameters are bounded by `Dim`: let the solver record them.
+            Constraint::IsDType(Type::Dimension(d)) if !d.type_variables(true).is_empty() => {
+                TrivialResolution::Unknown
+            }
             Constraint::IsDType(t) if t.is_closed() => match t {
                 Type::Dimension(_) => TrivialResolution::Satisfied,
                 _ => TrivialResolution::Violated,
